@@ -417,8 +417,11 @@ tp_task_enable(tp_task_p tptask, int enable) {
 
 	if (NULL == tptask)
 		return (EINVAL);
-	if (0 != tptask->timeout) {
-		error = tpt_ev_enable_args(enable, TP_EV_TIMER,
+	if (0 == enable) { /* Allways: timeout may be changed after the timer was armed. */
+		tpt_ev_enable_args1(0, TP_EV_TIMER, &tptask->tp_timer);
+	} else if (0 != tptask->timeout) {
+		/* Not ...enable...: timer may be not created yet. */
+		error = tpt_ev_add_args(tptask->tpt, TP_EV_TIMER,
 		    TP_F_DISPATCH, TP_FF_T_MSEC, tptask->timeout,
 		    &tptask->tp_timer);
 		if (0 != error)
@@ -453,13 +456,13 @@ tp_task_handler_pre_int(tp_event_p ev, tp_udata_p tp_udata,
 		return (ETIMEDOUT);
 	}
 	(*tptask) = (tp_task_p)tp_udata;
-	if (0 != (*tptask)->timeout) { /* Disable/remove timer. */
-		if (0 != (TP_F_ONESHOT & (*tptask)->event_flags)) {
-			tpt_ev_del_args1(TP_EV_TIMER, &(*tptask)->tp_timer);
-		} else {
-			tpt_ev_enable_args1(0, TP_EV_TIMER,
-			    &(*tptask)->tp_timer);
-		}
+	/* Disable/remove timer. Allways: timeout may be changed after the
+	 * timer was armed, no timer - no problem. */
+	if (0 != (TP_F_ONESHOT & (*tptask)->event_flags)) {
+		tpt_ev_del_args1(TP_EV_TIMER, &(*tptask)->tp_timer);
+	} else {
+		tpt_ev_enable_args1(0, TP_EV_TIMER,
+		    &(*tptask)->tp_timer);
 	}
 	(*data2transfer_size) = (size_t)ev->data;
 	if (0 != (TP_F_ERROR & ev->flags)) /* Some error. */
@@ -478,7 +481,8 @@ tp_task_handler_post_int(tp_event_p ev, tp_task_p tptask, int cb_ret) {
 		tpt_ev_add_args(tptask->tpt, TP_EV_TIMER, TP_F_DISPATCH,
 		    TP_FF_T_MSEC, tptask->timeout, &tptask->tp_timer);
 	}
-	if (0 != (tptask->event_flags & TP_F_DISPATCH) ||
+	/* Pool disarm DISPATCH and remove ONESHOT on delivery. */
+	if (0 != (tptask->event_flags & (TP_F_DISPATCH | TP_F_ONESHOT)) ||
 	    TP_EV_TIMER == ev->event) {
 		tpt_ev_q_enable_args(1, tptask->event,
 		    tptask->event_flags, 0, 0, &tptask->tp_data);
@@ -621,7 +625,7 @@ err_out: /* Error. */
 		error = EINVAL;
 	}
 	error = SKT_ERR_FILTER(error);
-	if (0 == error) { /* Nothing transfered: report the event error. */
+	if (0 != ev_error) { /* Event error is the cause: send() after it say EPIPE. */
 		error = ev_error;
 	}
 	if (0 == error) {
